@@ -15,6 +15,7 @@ import (
 	"os"
 	"os/exec"
 	"path/filepath"
+	"regexp"
 	"runtime"
 	"runtime/debug"
 	"sort"
@@ -141,11 +142,30 @@ func topFrames(stack []byte, n int) string {
 
 type knownFinding struct {
 	Property    string `json:"property"`
-	Class       string `json:"class"`
-	Status      string `json:"status"` // open | fixed
+	Class       string `json:"class,omitempty"`    // exact class
+	ClassRe     string `json:"class_re,omitempty"` // or an anchored regular expression over the class
+	Status      string `json:"status"`             // open | fixed
 	Commit      string `json:"commit,omitempty"`
 	Description string `json:"description"`
 	Witness     string `json:"witness,omitempty"`
+}
+
+func (k knownFinding) label() string {
+	if k.Class != "" {
+		return k.Class
+	}
+	return "re:" + k.ClassRe
+}
+
+func (k knownFinding) matches(class string) bool {
+	if k.Class != "" {
+		return k.Class == class
+	}
+	if k.ClassRe == "" {
+		return false
+	}
+	re, err := regexp.Compile("^(?:" + k.ClassRe + ")$")
+	return err == nil && re.MatchString(class)
 }
 
 func loadKnown(root string) []knownFinding {
@@ -285,8 +305,8 @@ func supervise(p *core.Property, tier string) int {
 	for i, v := range agg.violations {
 		matched := false
 		for _, k := range known {
-			if k.Property == p.ID && k.Status == "open" && k.Class == v.Class {
-				knownHit[k.Class]++
+			if k.Property == p.ID && k.Status == "open" && k.matches(v.Class) {
+				knownHit[k.label()]++
 				matched = true
 				break
 			}
@@ -303,7 +323,7 @@ func supervise(p *core.Property, tier string) int {
 	for _, c := range knownClasses {
 		desc := ""
 		for _, k := range known {
-			if k.Property == p.ID && k.Class == c {
+			if k.Property == p.ID && k.label() == c {
 				desc = k.Description
 			}
 		}
